@@ -15,7 +15,7 @@ DEVIATIONS = {  # cfg suffix -> invariant TLC must report
 }
 TRACE_CFG = """CONSTANTS
  Keys = {"k1","k2","k3","k4"}
- Sizes = {1,2,3,4,5,7}
+ Sizes = {1,2,3,5,8,9,12}
  Capacity = %d
  MaxOps = 1000000
  FixCopyOnSet = TRUE
